@@ -83,3 +83,41 @@ func (w *world) observeHookCall(call *sim.HookCall) {
 		sim.R().Violation("C03", w.reportID(), "mview:children-map-differs:"+call.Path, fmt.Sprintf("the children map sent to the %s hook differs from what the parent owns when the call arrives:\n  sent:  %s\n  owned: %s", call.Path, a, b), map[string]interface{}{"sync": call.Tag})
 	}
 }
+
+// observeHookCallOverlapping is the part of M-VIEW that stays sound while syncs of several parents
+// overlap: an object in the children map of a sync/finalize request must not, in the store at the
+// moment the call arrives, carry the controller reference of somebody other than the parent the
+// request is about (a parent never loses a child to another one without a write of its own, so a
+// child that is another's now was another's when this sync claimed it).
+func (w *world) observeHookCallOverlapping(call *sim.HookCall) {
+	if call.Path != "sync" && call.Path != "finalize" {
+		return
+	}
+	parent, _ := call.Req["parent"].(map[string]interface{})
+	if parent == nil {
+		return
+	}
+	puid, pns := sim.UID(parent), sim.NS(parent)
+	children, _ := call.Req["children"].(map[string]interface{})
+	for _, c := range w.cfg.Children {
+		gm, _ := children[sim.HookKey(c.Info)].(map[string]interface{})
+		for k, o := range gm {
+			om, _ := o.(map[string]interface{})
+			if om == nil {
+				continue
+			}
+			ns := sim.NS(om)
+			if ns == "" && c.Info.Namespaced {
+				ns = pns
+			}
+			live := w.sim.Peek(c.Info.GVR(), ns, sim.Name(om))
+			if live == nil || sim.UID(live) != sim.UID(om) {
+				continue
+			}
+			sim.R().Counter("C03", "overlapping_views_judged", 1)
+			if ctl := sim.ControllerOf(live); ctl != nil && ctl.UID != puid {
+				sim.R().Violation("C03", w.reportID(), "mview:child-of-another-parent:"+call.Path, fmt.Sprintf("the %s hook of parent %s (uid %s) was sent %s %s, which the store says is controlled by %s %s (uid %s)", call.Path, sim.Name(parent), puid, sim.HookKey(c.Info), k, ctl.Kind, ctl.Name, ctl.UID), map[string]interface{}{"sync": call.Tag})
+			}
+		}
+	}
+}
